@@ -21,7 +21,7 @@ TRUSTED = [
 def standin(d):
     p = os.path.join(d, "standin.sh")
     with open(p, "w") as f:
-        f.write('#!/bin/sh\nfor a in "$@"; do printf "%s\\n" "$a" >> "$C19_LOG"; done\nprintf "%s\\n" "--END--" >> "$C19_LOG"\ncase "$C19_EXIT" in sig*) kill -${C19_EXIT#sig} $$; sleep 5;; esac\nexit ${C19_EXIT:-0}\n')
+        f.write('#!/bin/sh\nfor a in "$@"; do printf "%s\\n" "$a" >> "$C19_LOG"; done\nprintf "%s\\n" "--END--" >> "$C19_LOG"\ncase "$C19_EXIT" in sig*) kill -${C19_EXIT#sig} $$; sleep 5;; first1) if [ ! -e "$C19_LOG.cnt" ]; then : > "$C19_LOG.cnt"; exit 1; fi; exit 0;; esac\nexit ${C19_EXIT:-0}\n')
     os.chmod(p, 0o755)
     return p
 
@@ -169,6 +169,12 @@ def run(tier, seed, replay):
             files = gen_patch(rnd)
             cases.append({"kind": "patch", "files": files, "text": render(files, rnd.choice(["\n", "\n", "\r\n"])), "p": rnd.randint(0, 3),
                           "suffix": rnd.choice([".rs", ".rs", "", "lib.rs"]), "exit": rnd.choice([0, 0, 0, 1, 3, 101, "sig9", "sig6", "sig11"])})
+        # very many files in one patch: however the tool splits its work, every started rustfmt counts (the first one fails here)
+        for _ in range(3 if tier == "quick" else 20):
+            nf = rnd.randint(65, 140)
+            files = [{"old": "a/src/f%03d.rs" % k, "new": "b/src/f%03d.rs" % k, "git": False, "stamp": "",
+                      "hunks": [{"o_start": 3, "o_cnt": 1, "n_start": 3, "n_cnt": 2, "omit_o": False, "omit_n": False, "section": "", "body": [" ctx", "+new"]}]} for k in range(nf)]
+            cases.append({"kind": "patch", "files": files, "text": render(files), "p": 1, "suffix": ".rs", "exit": rnd.choice(["first1", "first1", 0])})
         m = 60 if tier == "quick" else 600
         for _ in range(m):
             ctx = rnd.randint(0, 3)
@@ -188,11 +194,20 @@ def run(tier, seed, replay):
             argv = open(logf).read().split("\n")
             os.remove(logf)
         inv = None
+        if os.path.exists(logf + ".cnt"):
+            os.remove(logf + ".cnt")
         if argv is not None:
-            args = argv[:argv.index("--END--")]
-            k = args.index("--file-lines")
-            ranges = json.loads(args[k + 1])
-            inv = {"files": sorted(args[:k]), "ranges": [[r["file"], r["range"][0], r["range"][1]] for r in ranges], "extra": args[k + 2:]}
+            # every started rustfmt: the files and ranges of all of them together
+            fs_, rs_, ex_ = [], [], []
+            rest = argv
+            while "--END--" in rest:
+                args = rest[:rest.index("--END--")]
+                rest = rest[rest.index("--END--") + 1:]
+                k = args.index("--file-lines")
+                fs_ += args[:k]
+                rs_ += [[r["file"], r["range"][0], r["range"][1]] for r in json.loads(args[k + 1])]
+                ex_ = args[k + 2:]
+            inv = {"files": sorted(fs_), "ranges": rs_, "extra": ex_}
         impl.append({"rc": p.returncode, "inv": inv, "stderr": p.stderr[-300:]})
     # model
     model = None
@@ -205,7 +220,7 @@ def run(tier, seed, replay):
             lines = [l[:-1] if l.endswith("\r") else l for l in lines]       # BufRead::lines
             exprs.append("(run_invocation %d %s %s, run_exit %d %s %s %s)" % (
                 c["p"], coqterm.text(c["suffix"]), coqterm.render(lines), c["p"], coqterm.text(c["suffix"]),
-                "true" if c["exit"] == 0 else "false", coqterm.render(lines)))      # killed by a signal = not a success
+                "true" if c["exit"] == 0 else "false", coqterm.render(lines)))      # killed by a signal / a failing first process = not a success
         model = common.run_coq_cases("From V Require Import Base.Text C19.Model C19.Run.\nOpen Scope N_scope.", "", exprs, "c19", per_file=40)
     except Exception as e:
         log("C19: model evaluation failed: %s" % str(e)[-1500:])
